@@ -1,9 +1,17 @@
-(* C09 -- backslash-escaping makes any text literal.  Proved so far: the escape rule turns a
+(* C09 -- backslash-escaping makes any text literal.  END TO END ON THE MODEL
+   (C09_render_inline_escaped): for EVERY text t made of runs of characters the text rule does not
+   stop at and of ASCII punctuation characters, renderInline of the source in which each
+   punctuation character is preceded by a backslash is exactly escapeHtml(t) -- for every
+   configuration in which the escape rule is reached through text / newline / linkify(off) only,
+   whatever inline rules follow it and whatever post-processing rules are enabled.  Inline level
+   (C09_inline_escaped_text): the inline parser yields only text / text_special tokens whose
+   concatenated content is t.  And: the escape rule turns a
    backslash followed by ANY ASCII punctuation character into a text_special token holding
    exactly that character (every such character is in the escapable table regenerated from
    /repo); text_join then folds it into text (C02_text_join_no_special).  The context statements
    are decided on the implementation each run.  Only statements and [exact]. *)
-From MD Require Import Base.Py Base.Str Base.Opt Model.Token Model.Utils Model.Inline Lemmas.InlineLemmas.
+From MD Require Import Base.Py Base.Str Base.Opt Model.Token Model.Utils Model.StateBlock Model.Core Model.Inline Model.Pipeline
+     Lemmas.InlineLemmas Lemmas.InlineEsc.
 From MD Require Import Gen.Tables.
 
 Theorem C09_every_punct_escapable : forallb (fun c => mem_z c escaped_table) md_ascii_punct = true.
@@ -19,3 +27,28 @@ Theorem C09_escape_rule :
                    /\ tmarkup t = [92; c] /\ tnesting t = 0.
 Proof. exact escape_punct. Qed.
 Print Assumptions C09_escape_rule.
+
+(* the inline parser on an escaped text: text-like tokens whose contents concatenate to the text *)
+Theorem C09_inline_escaped_text :
+  forall cfg reformat casefold linktext F pre post,
+    ic_rules cfg = pre ++ n_escape :: post ->
+    Forall (fun n => n = n_text \/ n = n_linkify \/ n = n_newline) pre -> In n_text pre ->
+    ic_linkify cfg = false -> 0 < ic_maxNesting cfg ->
+    forall segs env, wf segs ->
+    exists toks, inline_parse_with cfg reformat casefold linktext F (src_of segs) env [] = Ok toks
+                 /\ contents toks = text_of segs /\ Forall textlike toks.
+Proof. exact inline_parse_esc_with. Qed.
+Print Assumptions C09_inline_escaped_text.
+
+(* renderInline(esc(t)) = escapeHtml(t) *)
+Theorem C09_render_inline_escaped :
+  forall cfg reformat casefold linktext pre post,
+    ic_rules (p_inline cfg) = pre ++ n_escape :: post ->
+    Forall (fun n => n = n_text \/ n = n_linkify \/ n = n_newline) pre -> In n_text pre ->
+    ic_linkify (p_inline cfg) = false -> 0 < ic_maxNesting (p_inline cfg) ->
+    p_core cfg = [n_normalize; n_block; n_inline; n_text_join] ->
+    forall segs env,
+      wf segs -> mem_z 13 (src_of segs) = false -> mem_z 0 (src_of segs) = false ->
+      render_inline_md cfg reformat casefold linktext (src_of segs) env = Ok (escape_html (text_of segs), env).
+Proof. exact render_inline_esc. Qed.
+Print Assumptions C09_render_inline_escaped.
